@@ -151,3 +151,8 @@ int sz_regexp (int n, int matched, int flag) {
   return sizeof (regexp (a, "a", flag));
 }
 int sz_reg_assoc (int m) { mixed *r = reg_assoc (str (m, "a"), ({ "a" }), ({ 1 })); return sizeof (r[0]) == sizeof (r[1]) ? sizeof (r[0]) : -2; }
+// replace_string with a one character pattern and a longer replacement (the `plen == 1` scan): "c" * a + "a" * b, "a" -> r characters
+int sz_replace1 (int a, int b, int r) {
+  string s = str (a, "c") + str (b, "a"); mixed x = replace_string (s, "a", str (r, "x"));
+  return stringp (x) ? strlen (x) : -1;
+}
